@@ -381,7 +381,7 @@ func VerifC05FieldHistory() {
 		"a later field of a later record is compared as a string (or number) because of what was done to an earlier record")
 }
 
-func VerifC05Compare() { verifC05Compare([]int{0, 1, 2, 3, 4, 5}, verifBound(1, 2), false) }
+func VerifC05Compare() { verifC05Compare([]int{0, 1, 2, 3, 4, 5}, verifBound(1, 1), false) } // longer operands: VerifC05Typing
 
 // the typing rule on longer strings (blanks, signs, exponents), operators == and <
 func VerifC05Typing() { verifC05Compare([]int{0, 2}, verifBound(2, 3), true) }
